@@ -72,8 +72,12 @@ MANIFEST = dict(
          "(xld_walk in Proofs/XPathListDeep.lean: the walk that starts in n0list._find ends in the dict-side search or, for a P "
          "of indexes only, still in n0list._find at the record list; token level xld_star_spelled / xld_pred_spelled for any "
          "index spelling, both values of return_lists); C06_star_list_deep_example, C06_pred_list_deep_example evaluate the "
-         "model on paths run against the implementation. Differential only: index spellings with blanks inside the brackets, "
-         "CHAINED selections and non-canonical spellings of P at string level in an n0list-rooted tree (15 % of the generated "
+         "model on paths run against the implementation. CHAINED selections in an n0list-rooted tree: C06_chained_list_deep "
+         "(`P[k1 op v1]/items[k2 op v2]/f`, P starting with an index) and C06_chained_list_root (the root list is the outer "
+         "record list), get / item access (return_lists=True contributions) and first (return_lists=False contributions), "
+         "`items` a list of dict records or one dict record (xld_chained_spelled, xld_chained_root); "
+         "C06_chained_list_deep_example. Differential only: index spellings with blanks inside the brackets, "
+         "non-canonical spellings of P at string level in an n0list-rooted tree (15 % of the generated "
          "trees keep a list root, all forms and chained selections, evaluator and model stream), a scalar `items` "
          "(fix C06-h: a single value does not satisfy a condition, that parent contributes nothing - before, IndexError left the "
          "fan-out loop and hid the selections of all other parents; C06_scalar_inner_example; 20 % of the generated order lists "
